@@ -242,7 +242,8 @@ func tkSweep() []func(*TKParams) {
 		v := v
 		fs = append(fs, func(p *TKParams) { p.Fee.A = v })
 	}
-	for _, d := range []int{0, 2, 3, 5} {
+	// fee denoms: invalid (0, 3), valid but unregistered (2), a registered symbol (5), a registered min unit only (6)
+	for _, d := range []int{0, 2, 3, 5, 6} {
 		d := d
 		fs = append(fs, func(p *TKParams) { p.Fee.D = d })
 	}
@@ -289,7 +290,7 @@ func genTK(r *lib.Rand, h *History, i int) {
 		case 2:
 			p.Fee.D = genDenom(r, 1)
 			if r.Chance(1, 2) {
-				p.Fee.D = 5
+				p.Fee.D = []int{5, 5, 6, 2}[r.Intn(4)]
 			}
 		case 3:
 			p.Ratio = genRate(r, "100000000000000000")
